@@ -2,7 +2,7 @@
 # usage: try_seed.sh <patch.diff> <check ids...>
 # Runs checks against a scratch copy of /repo's working tree with the seeded change applied
 # (XCM_REPO points the checks at the copy; /repo itself is not touched).
-P=$1; shift
+P=$(realpath "$1"); shift
 S=/tmp/seedscratch.$$
 rm -rf $S; mkdir -p $S
 rsync -a --exclude .git --exclude '*.o' --exclude '*.lo' --exclude '*.la' --exclude .libs --exclude xcmtest --exclude autom4te.cache --exclude test --exclude python --exclude doc /repo/ $S/
